@@ -39,6 +39,13 @@ impl<'a> Cur<'a> {
         }
         &self.d.scripts[Self::bump(&self.s) % self.d.scripts.len()]
     }
+    /// `&&Script`: the inner reference is leaked (a few bytes per case of the one corpus type using it)
+    pub fn script_ref_ref(&self) -> &'a &'a Script {
+        Box::leak(Box::new(self.script_ref()))
+    }
+    pub fn scripts_slice(&self) -> &'a [Script] {
+        &self.d.scripts
+    }
     pub fn script(&self) -> Script {
         self.script_ref().clone()
     }
